@@ -14,6 +14,7 @@ import (
 	"verif/checks/c10"
 	"verif/checks/c11"
 	"verif/checks/c12"
+	"verif/checks/c13"
 	"verif/engine/core"
 	"verif/gen/keys"
 )
@@ -33,6 +34,7 @@ var checks = map[string]check{
 	"C10": {"model_checking", c10.Run},
 	"C11": {"exploration", c11.Run},
 	"C12": {"model_checking", c12.Run},
+	"C13": {"exploration", c13.Run},
 }
 
 func main() {
